@@ -392,6 +392,7 @@ type client struct {
 	mu     sync.Mutex
 	frames []frame
 	closed bool // reader saw EOF / error
+	decodeErr string // a decoding error other than the end of the connection
 	rdDone chan struct{}
 	wmu    sync.Mutex
 }
@@ -488,52 +489,58 @@ func dial(e *env) (*client, error) {
 }
 
 // readLoop decodes msgpack objects one by one; an object with exactly the keys {Seq, Error} is a
-// reply header, anything else is the body of the header before it.
+// reply header, any other object is the body of the header before it.  The server sends header and
+// body in one buffered write: a header with nothing buffered behind it has no body (net.Pipe hands
+// over one write per read).  A body without a header and a decoding error before the connection
+// ended are recorded as garbled input (frames of kind "orphan", decodeErr).
 func (c *client) readLoop() {
 	defer close(c.rdDone)
 	br := bufio.NewReaderSize(c.conn, 1<<16)
 	dec := codec.NewDecoder(br, msgpackHandle())
-	fail := func() {
+	var pending *frame
+	publish := func(f frame) {
 		c.mu.Lock()
-		c.closed = true
+		c.frames = append(c.frames, f)
 		c.mu.Unlock()
 	}
 	for {
 		var v interface{}
 		if err := dec.Decode(&v); err != nil {
-			fail()
+			if pending != nil {
+				publish(*pending)
+			}
+			c.mu.Lock()
+			c.closed = true
+			if err != io.EOF && !errors.Is(err, io.ErrClosedPipe) {
+				c.decodeErr = err.Error()
+			}
+			c.mu.Unlock()
 			return
 		}
 		m, _ := v.(map[string]interface{})
-		if m == nil || !isHeader(m) {
-			c.mu.Lock()
-			c.frames = append(c.frames, frame{Seq: 1 << 62, Body: map[string]interface{}{"orphan": v}, Kind: "orphan"})
-			c.mu.Unlock()
+		if m != nil && isHeader(m) {
+			if pending != nil {
+				publish(*pending) // two headers in one write: the first one had no body
+			}
+			pending = &frame{Seq: toU64(m["Seq"]), Err: toStr(m["Error"])}
+			if br.Buffered() == 0 {
+				publish(*pending)
+				pending = nil
+			}
 			continue
 		}
-		f := frame{Seq: toU64(m["Seq"]), Err: toStr(m["Error"])}
-		// the server encodes header and body into one buffered write: whatever is already buffered
-		// behind a header belongs to it (net.Pipe hands over one write per read)
-		if br.Buffered() > 0 {
-			var b interface{}
-			if err := dec.Decode(&b); err != nil {
-				c.mu.Lock()
-				c.frames = append(c.frames, f)
-				c.mu.Unlock()
-				fail()
-				return
-			}
-			if bm, ok := b.(map[string]interface{}); ok && !isHeader(bm) {
-				f.Body = bm
-				f.Kind = kindOf(bm)
-			} else {
-				f.Body = map[string]interface{}{"orphan": b}
-				f.Kind = "orphan"
-			}
+		if pending != nil && m != nil {
+			pending.Body = m
+			pending.Kind = kindOf(m)
+			publish(*pending)
+			pending = nil
+			continue
 		}
-		c.mu.Lock()
-		c.frames = append(c.frames, f)
-		c.mu.Unlock()
+		if pending != nil {
+			publish(*pending)
+			pending = nil
+		}
+		publish(frame{Kind: "orphan", Body: map[string]interface{}{"orphan": v}})
 	}
 }
 
